@@ -20,6 +20,13 @@
 //!   clear | clearq <q>
 //!   end <digest>
 //!
+//! Outside blocks:
+//!
+//!   negttl <soa_ttl|-> <soa_minimum> <rcode>   a real NXDOMAIN/NODATA response → `DnsError::from_response`;
+//!                                              prints the derived `negative_ttl` (RFC 2308: min of both)
+//!   realtime <lifetime_ms>                      implementation only (`~`): real clock, moka's own expiry
+//!                                               included — after sleeping past the lifetime nothing is served
+//!
 //! The oracle (independent of the Lean model) recomputes the clauses of the property from the
 //! history: never served after `t_ins + L`, every TTL = clamped stored TTL ⊖ whole seconds elapsed,
 //! TTLs non-increasing between refreshes, negative answers bounded, transient errors never cached,
@@ -46,8 +53,6 @@ use crate::common::*;
 
 const NS_PER_S: u128 = 1_000_000_000;
 const MAX_TTL: u32 = 86_400;
-/// `Instant` arithmetic is `i64` seconds: relative limit used by the model (uptime neglected)
-const INSTANT_LIMIT_S: u128 = 1 << 63;
 const T_A: u16 = 1;
 const T_NS: u16 = 2;
 const T_CNAME: u16 = 5;
@@ -869,6 +874,65 @@ pub fn exec(line: &str, ctx: &mut Ctx, rec: &mut Recorder) {
             }
             ctx.blk = Blk::None;
         }
+        ["negttl", soa_ttl, minimum, rcode] if matches!(ctx.blk, Blk::None) => {
+            let (Ok(minimum), Ok(rcode)) = (minimum.parse::<u32>(), rcode.parse::<u16>()) else {
+                rec.stat("skipped.unparsable-or-out-of-block");
+                return;
+            };
+            let soa_ttl: Option<u32> = if *soa_ttl == "-" { None } else { soa_ttl.parse().ok() };
+            let q = AQuery { id: 0, upper: false, ty: T_A };
+            let mut m = Message::error_msg(0x1234, OpCode::Query, <ResponseCode as From<u16>>::from(rcode));
+            m.add_query(mk_query(&q));
+            m.authorities.push(mk_rec(&ARec { ty: T_NS, ttl: 5, pid: 1 }));
+            if let Some(t) = soa_ttl {
+                let mut soa = mk_soa(2);
+                soa.minimum = minimum;
+                m.authorities.push(Record::from_rdata(name("r", 2), t, RData::SOA(soa)));
+            }
+            let out = catch(|| DnsResponse::from_message(m).ok().map(DnsError::from_response));
+            let (shown, got) = match &out {
+                Ok(Some(Err(DnsError::NoRecordsFound(n)))) => (format!("neg {}", show_opt(&n.negative_ttl)), Some(n.negative_ttl)),
+                Ok(_) => ("not-negative".to_string(), None),
+                Err(_) => ("panic".to_string(), None),
+            };
+            let idx = rec.case(line.to_string(), shown);
+            rec.stat("op.negttl");
+            // RFC 2308 §5: the negative TTL is the minimum of the SOA's TTL and its MINIMUM field
+            let want = soa_ttl.map(|t| t.min(minimum));
+            if got != Some(want) {
+                rec.fail(idx, format!("negative_ttl derived from the response is {got:?}, RFC 2308 says {want:?}"), "");
+            } else if soa_ttl.is_some() {
+                rec.nontrivial(idx);
+            }
+        }
+        ["realtime", ms] if matches!(ctx.blk, Blk::None) => {
+            let Ok(ms) = ms.parse::<u64>() else {
+                rec.stat("skipped.unparsable-or-out-of-block");
+                return;
+            };
+            // real clock, real moka expiry: lifetime = `ms` for everything (positive min = max)
+            let life = Duration::from_millis(ms);
+            let mut opts = ResolverOpts::default();
+            opts.positive_min_ttl = Some(life);
+            opts.positive_max_ttl = Some(life);
+            let cache = ResponseCache::new(100_000, TtlConfig::from_opts(&opts));
+            let q = AQuery { id: 0, upper: false, ty: T_A };
+            let msg = mk_message(&[ARec { ty: T_A, ttl: 3600, pid: 1 }], &[], &[], &q);
+            let t0 = Instant::now();
+            cache.insert(mk_query(&q), Ok(msg), t0);
+            let early = cache.get(&mk_query(&q), t0).is_some();
+            std::thread::sleep(life + Duration::from_millis(30));
+            let late = cache.get(&mk_query(&q), Instant::now());
+            rec.impl_only += 1;
+            let idx = rec.case(line.to_string(), "~".into());
+            rec.stat("op.realtime");
+            rec.stat(if early { "realtime.served-at-insert-instant" } else { "realtime.not-served-at-insert-instant(stall)" });
+            if late.is_some() {
+                rec.fail(idx, format!("real clock: an entry with a lifetime of {ms} ms was served {} ms after its insert", t0.elapsed().as_millis()), "");
+            } else {
+                rec.nontrivial(idx);
+            }
+        }
         _ => {
             let mut counts = (0, 0, 0);
             let r = match &mut ctx.blk {
@@ -1169,8 +1233,16 @@ pub fn run(o: &Opts, rec: &mut Recorder) {
             exec(&l, &mut ctx, rec);
         }
     }
+    for ms in if o.thorough() { vec![1u64, 50, 300, 1000] } else { vec![1, 120] } {
+        exec(&format!("realtime {ms}"), &mut ctx, rec);
+    }
     let mut r = Rng::new(o.seed);
-    let blocks = o.n(12_000, 150_000);
+    for _ in 0..o.n(300, 5_000) {
+        let soa_ttl = if r.chance(1, 8) { "-".to_string() } else { gen_ttl(&mut r).to_string() };
+        let l = format!("negttl {} {} {}", soa_ttl, gen_ttl(&mut r), if r.chance(1, 2) { 3 } else { 0 });
+        exec(&l, &mut ctx, rec);
+    }
+    let blocks = o.n(12_000, 300_000);
     for i in 0..blocks {
         let lines = if i % 12 == 11 { gen_cc_block(&mut r) } else { gen_direct_block(&mut r) };
         for l in lines {
